@@ -230,6 +230,23 @@ def constructed_only_validated(F, R):
     R.floor('C18.parse-table', 'TopicFilter construction sites', n, 1)
 
 
+def matchers_share_the_loop(F, R):
+    """Both public matchers - filter against topic name, filter against filter - are the one loop `match_topic` (whose steps
+    are checked above) applied to their kind of level sequence; the value they return is its result, nothing else. A second,
+    hand-written walk (zip of the two level lists ..) has end-of-input rules of its own."""
+    n = 0
+    for fn in ('matches_filter', 'matches_topic'):
+        for b in F.find(r'^topic::TopicFilter::%s$' % fn):
+            n += 1
+            mt = [bi for bi, t in b.calls_to(r'^topic::match_topic$')]
+            og = Origin(b).of_operand({'mv': {'l': 0, 'p': []}})
+            only = bool(mt) and all(b.must_pass(mt, rb) for rb in b.returns()) and \
+                {l[2] for l in og if l[0] == 'call'} == set(mt) and not any(l[0] in ('const', 'binop') for l in og)
+            R.ob('C18.match-loop', 'TopicFilter::%s|result-is-match_topic' % fn, only,
+                 'the matcher does not return the result of the shared loop match_topic (own walk over the levels, or the result combined with something else): its end-of-input and `#` / `$` rules are not the checked ones', b.loc(0))
+    R.floor('C18.match-loop', 'public matchers', n, 2)
+
+
 def atom_model(nm, args, t, path):
     base = nm.split('::')[-1]
     if base in ('eq', 'ne') and len(args) == 2:
@@ -1008,6 +1025,7 @@ def run(F, R):
     is_system_rule(F, R)
     constructed_only_validated(F, R)
     match_loop(F, R)
+    matchers_share_the_loop(F, R)
     parse_table(F, R)
     display_table(F, R)
     param_use(F, R)
